@@ -355,7 +355,7 @@ def check_fitted_plots(case, ctx):
                 xy = np.asarray(ax0.lines[0].get_xydata(), dtype=float)
                 x = np.linspace(data[:, 0].min(), data[:, 0].max())
                 y = np.asarray(model.distributions[0].pdf(x), dtype=float)
-                if xy.shape != (len(x), 2) or not (np.array_equal(xy[:, 0], x) and np.array_equal(xy[:, 1], y)):
+                if xy.shape != (len(x), 2) or not (np.array_equal(xy[:, 0], x) and np.allclose(xy[:, 1], y, rtol=1e-13, atol=0)):
                     ctx.violation("histograms:marginal_pdf_line", f"{xy[:2].tolist()} vs {np.c_[x, y][:2].tolist()}")
                     return
                 axs = axes_list[1]
